@@ -470,16 +470,15 @@ func runNonEmptyLinux(c Case, safe6 bool, res *Result) {
 			fail(scn, "valid_pair_rejected", "drc ends with a diagnostic on a host with an older ruleset: "+errOut)
 			return
 		}
-		after := out
 		if len(scriptLines(out)) == 0 {
 			if mustChange {
 				fail(scn, "difference_not_seen", "host differs from the merged target in a negation, compare prints nothing")
 				return
 			}
-			after = dev
 		} else {
 			res.Count("ne:changes:linux-" + scn)
 		}
+		after := linuxAfter(dev, out)
 		o := readOutcome("linux", after, errOut, "")
 		for _, v := range oracle(want, o, safe6) {
 			fail(scn, v.pred, v.what)
@@ -536,4 +535,42 @@ func runNonEmptyLinux(c Case, safe6 bool, res *Result) {
 			reach("older-without-ipv6", old, files, c, false)
 		}
 	}
+}
+
+// linuxAfter: the host after the printed changes: the ruleset is replaced as a whole if one is printed,
+// routes are added and deleted one by one.
+func linuxAfter(dev, out string) string {
+	split := func(t string) (routes, rest []string) {
+		for _, l := range strings.Split(t, "\n") {
+			if strings.HasPrefix(l, "ip route ") {
+				routes = append(routes, l)
+			} else if strings.TrimSpace(l) != "" {
+				rest = append(rest, l)
+			}
+		}
+		return
+	}
+	dr, dt := split(dev)
+	or, ot := split(out)
+	hasTable := false
+	for _, l := range ot {
+		hasTable = hasTable || strings.HasPrefix(l, "*")
+	}
+	if hasTable {
+		dt = ot
+	}
+	for _, l := range or {
+		if rest, ok := strings.CutPrefix(l, "ip route del "); ok {
+			var n []string
+			for _, r := range dr {
+				if r != "ip route add "+rest {
+					n = append(n, r)
+				}
+			}
+			dr = n
+		} else {
+			dr = append(dr, l)
+		}
+	}
+	return strings.Join(append(dr, dt...), "\n") + "\n"
 }
